@@ -31,6 +31,7 @@ FP_COMPAT = "param-compat-union-elided"
 FP_SINGLE = "singleton-union-collapsed"
 FP_EQHASH = "pytd-eq-nested-union-order"
 FP_IMPORT = "unused-typing-import-after-elided-annotation"
+FP_MUTIMPORT = "mutated-type-typing-name-not-imported"
 
 
 # ---------------------------------------------------------------------------------------------------
@@ -303,8 +304,12 @@ def type_map(impl, ids, ast):
     for i, s in enumerate(f.signatures):
       for j, p in enumerate(s.params):
         m[prefix + (base(f.name), i, "p%d:%s" % (j, p.name))] = conv(p.type)
+        # parameter kind and optionality, encoded as a pseudo type so that they take part in the comparison
+        m[prefix + (base(f.name), i, "shape%d" % j)] = ("N", "p", ids.id("<%s,%s,%s>" % (p.name, p.kind.name, p.optional)))
         if p.mutated_type is not None:
           m[prefix + (base(f.name), i, "mut:" + p.name)] = conv(p.mutated_type)
+      m[prefix + (base(f.name), i, "arity")] = ("N", "p", ids.id("<%d,%s,%s>" % (
+          len(s.params), s.starargs.name if s.starargs else None, s.starstarargs.name if s.starstarargs else None)))
       if s.starargs:
         m[prefix + (base(f.name), i, "*")] = conv(s.starargs.type)
       if s.starstarargs:
@@ -725,7 +730,12 @@ def run(res):
   # ---------------- (2) reader-only texts ----------------
   n_ex = 6000 if thorough else 800
   eg = ExprGen(r, tvars)
-  texts = [eg.e(3) for _ in range(n_ex)]
+  texts = ["Union[list[Union[int, str]], list[Union[str, int]]]", "Union[list[Optional[int]], list[Union[None, int]], str]",
+           "Optional[Optional[int]]", "Union[int, Union[str, Union[None, int]]]", "Literal[1, True, 0, False, 1]",
+           "Union[Literal[1], Literal[True], None]", "Callable[[nothing], int]", "Callable[[], int]", "tuple[()]",
+           "tuple[int, ...]", "tuple[int]", "Optional[int, str]", "Union[int]", "Literal[None, 1]", "Callable[Any, int]",
+           "Annotated[int, 'x']", "type[Foo]", "Type[Foo]"]
+  texts += [eg.e(3) for _ in range(n_ex)]
   header = "from typing import Annotated, Any, Callable, Iterable, Literal, Optional, Sequence, Type, Union, TypeVar\n" + \
            "".join("%s = TypeVar('%s')\n" % (v, v) for v in tvars)
   lines = []
@@ -791,6 +801,19 @@ def run(res):
       res.sample({"signature_printed": st})
     if rtoks != mtoks:
       disagree("sig-tokens", "real=%s model=%s" % (st, mtoks))
+      continue
+    # names of typing members that occur only in a `x = T` mutation line are not imported by the printer (the line is
+    # printed by a copy of the visitor whose import bookkeeping is thrown away): the reader then sees an unknown name
+    imp = [l for l in text.split("\n") if l.startswith("from typing import ")]
+    imported = set(x.strip() for x in imp[0][len("from typing import "):].split(",")) if imp else set()
+    body_names = set()
+    for l in st.split("\n")[1:]:
+      body_names |= set(re.findall(r"[A-Za-z_]\w*", l.split("=", 1)[-1]))
+    missing = sorted(n for n in body_names if n in ids.s2i and g.is_typing_id(ids.s2i[n]) and n not in imported)
+    if missing:
+      hist["sig:mutation-import-missing"] += 1
+      report(FP_MUTIMPORT, "typing names used only in a mutated-parameter type are missing from the import line: %s" % missing,
+             {"kind": "stub", "text": text})
       continue
     o = oracle_text(impl, text)
     sb = None
@@ -889,6 +912,61 @@ def run(res):
   return "proof"
 
 
+def shrink_stub(impl, text, budget_s=15.0):
+  """Greedy removal of declarations (then of single class members) while the stub still parses and still is not a
+  fixed point of parse-then-print.  Time-bounded."""
+  deadline = time.time() + budget_s
+  def noimp(t):
+    return [l for l in t.rstrip("\n").split("\n") if l.strip() and not l.startswith(("from ", "import "))]
+  def bad(t):
+    o = oracle_text(impl, t)
+    return o["parse"] and o["text2"] is not None and noimp(o["text2"]) != noimp(t)
+  lines = text.rstrip("\n").split("\n")
+  def blocks(ls):
+    out = []
+    for l in ls:
+      if l and not l.startswith((" ", "\t")) or not out:
+        out.append([l])
+      else:
+        out[-1].append(l)
+    return out
+  bl = blocks(lines)
+  changed = True
+  while changed and time.time() < deadline:
+    changed = False
+    for i in range(len(bl) - 1, -1, -1):
+      if time.time() > deadline:
+        break
+      if bl[i][0].startswith(("from ", "import ")) or " = TypeVar(" in bl[i][0]:
+        continue
+      cand = bl[:i] + bl[i + 1:]
+      t = "\n".join("\n".join(b) for b in cand)
+      try:
+        if cand and bad(t):
+          bl = cand
+          changed = True
+      except Exception:  # pylint: disable=broad-except
+        pass
+  # members of the remaining classes
+  for bi in range(len(bl)):
+    b = bl[bi]
+    if not b[0].startswith("class "):
+      continue
+    j = len(b) - 1
+    while j >= 1 and time.time() < deadline:
+      cand_b = b[:j] + b[j + 1:]
+      if len(cand_b) > 1:
+        t = "\n".join("\n".join(x) for x in (bl[:bi] + [cand_b] + bl[bi + 1:]))
+        try:
+          if bad(t):
+            b = cand_b
+            bl[bi] = b
+        except Exception:  # pylint: disable=broad-except
+          pass
+      j -= 1
+  return "\n".join("\n".join(b) for b in bl) + "\n"
+
+
 def check_stub_text(res, impl, ids, text, origin, hist, report, unknown_violation, printed_ast=None):
   """The direct oracle on one stub."""
   o = oracle_text(impl, text)
@@ -906,6 +984,16 @@ def check_stub_text(res, impl, ids, text, origin, hist, report, unknown_violatio
     replay2 = dict(replay, reprinted=o["text2"])
     if unexpl or not fps:
       replay2["unexplained"] = unexpl[:3]
+      if len(res.violations) < 3:
+        try:
+          small = shrink_stub(impl, text)
+          fps_s, unexpl_s = explain_diff(small, oracle_text(impl, small)["text2"] or "")
+          if unexpl_s or not fps_s:          # the shrunk stub still shows an unexplained difference
+            replay2["shrunk_from"] = replay2.pop("text")
+            replay2["text"] = small
+            replay2.pop("program", None)
+        except Exception:  # pylint: disable=broad-except
+          pass
       unknown_violation("stub-fixpoint", "re-printing the re-read stub changes it: %r" % (unexpl[:1],), replay2)
     for fp in fps:
       report(fp, "re-printing the re-read stub changes it", replay2)
@@ -1020,26 +1108,38 @@ def common_coqchk(pid):
 
 
 def replay(res, path):
+  """Re-runs the direct oracle on the recorded stub (regenerated from the recorded program when there is one)."""
   common.bootstrap_pytype()
   impl = Impl()
+  ids = g.Ids()
   d = json.load(open(path))
-  rp = d["replay"]
+  rp = d.get("replay", d)
   text = rp["text"]
+  printed_ast = None
   if "program" in rp:
     from pytype import config, io
     print("program:\n" + rp["program"])
-    _, text = io.generate_pyi(rp["program"], config.Options.create(python_version=PYVER))
+    ret, text = io.generate_pyi(rp["program"], config.Options.create(python_version=PYVER))
+    printed_ast = ret.ast
   print("stub:\n" + text)
   o = oracle_text(impl, text)
   print("parse=%s verify=%s fixed_point=%s %s" % (o["parse"], o["verify"], o["fix"], o["err"] or ""))
   if o["text2"] is not None and not o["fix"]:
     print("\n".join(difflib.unified_diff(text.rstrip("\n").split("\n"), o["text2"].split("\n"), "emitted", "re-printed", lineterm="")))
-  bad = not (o["parse"] and o["verify"] and o["fix"])
-  if not bad and o["parse"]:
-    ids = g.Ids()
-    # structural comparison of a stub with its own second generation is trivial; re-run the declaration comparison if
-    # the replay recorded one
-    if "path" in rp:
-      print("declaration recorded as different:", rp.get("path"), rp.get("printed"), rp.get("reread"))
-      bad = True
-  return 1 if bad else 0
+  found = []
+  check_stub_text(res, impl, ids, text, "replay", collections.Counter(),
+                  lambda fp, what, r: found.append((fp, what)),
+                  lambda kind, what, r: found.append((kind, what)), printed_ast=printed_ast)
+  # a stub whose mutation lines use typing names that its import line lacks
+  imp = [l for l in text.split("\n") if l.startswith("from typing import ")]
+  imported = set(x.strip() for x in imp[0][len("from typing import "):].split(",")) if imp else set()
+  for l in text.split("\n"):
+    if re.match(r"^\s+\w+ = ", l):
+      for n in re.findall(r"[A-Za-z_]\w*", l.split("=", 1)[-1]):
+        if n in ("Union", "Optional", "Callable", "Literal", "Annotated", "Any") and n not in imported:
+          found.append((FP_MUTIMPORT, "%s is used in `%s` but not imported" % (n, l.strip())))
+  if "path" in rp and not found:
+    found.append(("recorded-declaration-difference", "%s: printed %s, re-read %s" % (rp["path"], rp.get("printed"), rp.get("reread"))))
+  for fp, what in found:
+    print("still violated: %s: %s" % (fp, what))
+  return 1 if found else 0
